@@ -154,6 +154,8 @@ def cases():
          ["Sb", "step", 1, None], ["Sb", "get_data", 1, {"E0": {"e": "b1", "e2": "c1"}}],
          ["Sc", "step", 1, None], ["Sc", "step", 2, None]],
         behaviour={"ev_next": [None], "p_event": 0.0})
+    # D33: a World without any simulator (the smallest scenario there is) must simply run to completion
+    add("empty_world", ["C05"], {"sims": [], "conns": [], "until": 2})
     return out
 
 
